@@ -717,10 +717,40 @@ class Interp:
             return v.compiled()
         return v
 
+    def less_than(self, a, b):
+        """a < b as the program would evaluate it: an analysed class's own __lt__ is interpreted."""
+        if isinstance(a, Obj):
+            hit = a.cls.lookup('__lt__')
+            if hit is not None and hit[0] == 'method':
+                return self.truth(self.call_function(hit[1], [a, b], {}))
+            if isinstance(b, Obj):
+                hit = b.cls.lookup('__gt__')
+                if hit is not None and hit[0] == 'method':
+                    return self.truth(self.call_function(hit[1], [b, a], {}))
+            raise Raised(ExcVal('TypeError', ("'<' not supported between instances of %s" % a.cls.name,)))
+        return self.truth(self.compare(ast.Lt, a, b))
+
+    def sort_values(self, items, key=None, reverse=False):
+        """Stable sort (insertion sort: same result as list.sort / sorted for a consistent order)."""
+        if is_abstract(reverse):
+            return Unknown('sorted-reverse')
+        keys = [self.call(key, [x], {}) if key is not None else x for x in items]
+        order = []
+        for i in range(len(items)):
+            j = len(order)
+            # find the insertion point from the right, moving left only past strictly greater elements
+            while j > 0 and (self.less_than(keys[i], keys[order[j - 1]]) if not reverse
+                             else self.less_than(keys[order[j - 1]], keys[i])):
+                j -= 1
+            order.insert(j, i)
+        return [items[i] for i in order]
+
     def call_external(self, ref, args, kwargs, node=None):
         d = ref.dotted
         if d in self.intrinsics:
             return self.intrinsics[d](self, list(args), kwargs)
+        if d == 'builtins.sorted':
+            return self.sort_values(list(self.iterate(args[0])), kwargs.get('key'), kwargs.get('reverse', False))
         if d == 'builtins.isinstance':
             return self.isinstance_(args[0], args[1])
         if d == 'builtins.issubclass':
@@ -1699,6 +1729,9 @@ class PyMethod:
                     return list(getattr(recv, name)())
                 if name == 'extend':
                     recv.extend(interp.iterate(a[0]))
+                    return None
+                if name == 'sort' and isinstance(recv, list):
+                    recv[:] = interp.sort_values(list(recv), kwargs.get('key'), kwargs.get('reverse', False))
                     return None
                 return getattr(recv, name)(*a, **kwargs)
             except (ValueError, IndexError, KeyError) as ex:
